@@ -9,6 +9,12 @@ Lean model's `checkConfig` on the generated tree.  The oracle then does the real
 masking functions and transform pipelines of every file (meta device in the quick tier, plus real CPU instantiation of
 a seeded sample of distinct (model, engine) pairs; everything on the CPU in the thorough tier) and of the default
 configuration of every model / dataset / masking function.
+
+Phase 3 adds the *values*: the guard / dispatch / keyword-loop / attribute-chain tables extracted by
+translate/recipes/c20_guards.py are evaluated in Lean (Model/ConfigGuard.lean, Props/GuardsC20.lean) and, for the same candidate
+values, by the real constructors (meta device), the real masking / dataset builders, the real test expressions of the dispatch
+chains, the real `_compute_resolution` and real attribute access on the structured configuration (`real_phase3`); the oracle
+states the same on every merged shipped configuration (`value_failures`, `dataset_failures`) and on every default.
 """
 from __future__ import annotations
 
